@@ -15,8 +15,9 @@ from mc.models import intervals
 MOD = "mc.props.c01"
 POOL = [-(2**31), -300, -16, -1, 0, 1, 9, 10, 13, 65, 97, 255, 256, 2**31 - 1, 2**63]
 SMALL_POOL = [-300, -1, 0, 9, 10, 13, 65, 255, 2**31 - 1]
-DEC_POOL = ["-2.50", "-1", "-0.01", "0", "0.5", "1", "1.50", "99.999"]
+DEC_POOL = ["-9999999999999999999.999999999999", "-2.50", "-1", "-0.01", "0", "0.5", "1", "1.50", "99.999", "9999999999999999999.999999999999"]
 FAR = 2**70
+TINY = decimal.Decimal("1E-30")
 
 
 def _cutplace():
@@ -127,6 +128,10 @@ def probes_for(kind, model_items):
         for limit in (lo, hi):
             if limit is not None:
                 values.update((limit - step, limit, limit + step))
+                if kind == "dec":
+                    # neighbours closer than the 28 significant digits of the default decimal context (computed exactly)
+                    exact = decimal.Context(prec=80)
+                    values.update((exact.subtract(limit, TINY), exact.add(limit, TINY)))
     values.update((-far, far))
     if kind == "dec":
         values.update(int(v) for v in list(values) if v == v.to_integral_value() and abs(v) < 10**6)
